@@ -1,6 +1,16 @@
 package ircserver
 
-import "gopkg.in/sorcix/irc.v2"
+import (
+	"unicode/utf8"
+
+	"gopkg.in/sorcix/irc.v2"
+)
+
+// maxUsernameLen limits the username in bytes. The username is part of the
+// prefix (nick!user@host) of every line the session originates: with an
+// arbitrarily long username, the prefix alone filled the 510 bytes of a line
+// and the command was cut off.
+const maxUsernameLen = 64
 
 func init() {
 	Commands["USER"] = &ircCommand{
@@ -13,6 +23,16 @@ func (i *IRCServer) cmdUser(s *Session, reply *Replyctx, msg *irc.Message) {
 	// We keep the username (so that bans are more effective) and realname
 	// (some people actually set it and look at it).
 	s.Username = msg.Params[0]
+	if len(s.Username) > maxUsernameLen {
+		s.Username = s.Username[:maxUsernameLen]
+		// Do not keep the first bytes of a multi-byte UTF-8 sequence.
+		for len(s.Username) > 0 {
+			if r, size := utf8.DecodeLastRuneInString(s.Username); r != utf8.RuneError || size != 1 {
+				break
+			}
+			s.Username = s.Username[:len(s.Username)-1]
+		}
+	}
 	s.Realname = msg.Trailing()
 	s.updateIrcPrefix()
 	i.maybeLogin(s, reply, msg)
